@@ -74,7 +74,7 @@ impl Cfg {
         // the same configuration is reached through the different routes the API offers, chosen from the
         // configuration itself so that every check exercises all of them
         let want = self.layers.layers();
-        let route = (self.level as usize + self.recipients) % 4;
+        let route = (self.level as usize + self.recipients + self.layers as usize) % 4;
         let mut c = match route {
             0 => {
                 let mut c = ArchiveWriterConfig::new();
@@ -402,8 +402,8 @@ pub fn run_program_on<W: Write>(
                     Some(_) => Box::new(Cursor::new(p.bytes(i, l, s))),
                     None => Box::new(content::GenReader { file: i, pos: l, end: l + s as u64, e: p.entropy }),
                 };
-                // every second operation hands its data over through a source returning at most 3 bytes per read
-                let src: Box<dyn Read> = if k % 2 == 1 { Box::new(CapRead { inner: src, cap: 3 }) } else { src };
+                // half of the appends (operation index + size odd) hand their data over through a source returning at most 3 bytes per read
+                let src: Box<dyn Read> = if (k + s) % 2 == 1 { Box::new(CapRead { inner: src, cap: 3 }) } else { src };
                 if p.stream_writer {
                     let data = p.bytes(i, l, s);
                     let mut sw = mla::helpers::StreamWriter::new(&mut w, ids[&i]);
@@ -460,7 +460,11 @@ pub fn build(p: &Program, cfg: &Cfg) -> Result<(Vec<u8>, Vec<usize>), String> {
     }
     let sink = SharedSink::new();
     let s2 = sink.clone();
-    let out = run_program_on(p, cfg, sink.clone(), &move || s2.len(), true)?;
+    let out = if p.ops.len() % 3 == 1 {
+        run_program_on(p, cfg, ShortSink { inner: sink.clone(), cap: 5 }, &move || s2.len(), true)?
+    } else {
+        run_program_on(p, cfg, sink.clone(), &move || s2.len(), true)?
+    };
     Ok((sink.bytes(), out.flush_lens))
 }
 
@@ -489,7 +493,7 @@ pub fn build_into_raw(p: &Program, cfg: &Cfg) -> Result<Vec<u8>, String> {
                         sw.write_all(piece).map_err(|e| format!("op {k} {} (StreamWriter): {e:?}", o.short()))?;
                     }
                 } else {
-                    if k % 2 == 1 {
+                    if (k + s) % 2 == 1 {
                         w.append_file_content(ids[&i], s as u64, CapRead { inner: &data[..], cap: 3 }).map_err(|e| format!("op {k} {}: {e:?}", o.short()))?;
                     } else {
                         w.append_file_content(ids[&i], s as u64, &data[..]).map_err(|e| format!("op {k} {}: {e:?}", o.short()))?;
@@ -513,12 +517,23 @@ pub fn build_into_raw(p: &Program, cfg: &Cfg) -> Result<Vec<u8>, String> {
 pub fn build_unfinalized(p: &Program, cfg: &Cfg) -> Result<(Vec<u8>, Vec<usize>), String> {
     let sink = SharedSink::new();
     let s2 = sink.clone();
-    let out = run_program_on(p, cfg, sink.clone(), &move || s2.len(), false)?;
+    // one program length in three: the destination accepts at most 5 bytes per write call
+    let out = if p.ops.len() % 3 == 1 {
+        run_program_on(p, cfg, ShortSink { inner: sink.clone(), cap: 5 }, &move || s2.len(), false)?
+    } else {
+        run_program_on(p, cfg, sink.clone(), &move || s2.len(), false)?
+    };
     Ok((sink.bytes(), out.flush_lens))
 }
 
 pub fn reader_config(key_indices: &[usize]) -> ArchiveReaderConfig {
-    let mut c = ArchiveReaderConfig::new();
+    reader_config_route(key_indices, false)
+}
+
+/// `alt`: start from `ArchiveReaderConfig::default()` (which announces the default layers until the header is
+/// loaded) instead of `new()`.
+pub fn reader_config_route(key_indices: &[usize], alt: bool) -> ArchiveReaderConfig {
+    let mut c = if alt { ArchiveReaderConfig::default() } else { ArchiveReaderConfig::new() };
     add_reader_keys(&mut c, key_indices);
     c
 }
@@ -548,10 +563,19 @@ pub fn read_all_from<R: Read + io::Seek>(
     key_indices: &[usize],
     chunk: usize,
 ) -> Result<BTreeMap<String, ReadFile>, String> {
+    read_all_from_route(src, key_indices, chunk, false)
+}
+
+pub fn read_all_from_route<R: Read + io::Seek>(
+    src: R,
+    key_indices: &[usize],
+    chunk: usize,
+    alt_config: bool,
+) -> Result<BTreeMap<String, ReadFile>, String> {
     let mut r = if key_indices.is_empty() {
         ArchiveReader::new(src).map_err(|e| format!("open: {e:?}"))?
     } else {
-        ArchiveReader::from_config(src, reader_config(key_indices)).map_err(|e| format!("open: {e:?}"))?
+        ArchiveReader::from_config(src, reader_config_route(key_indices, alt_config)).map_err(|e| format!("open: {e:?}"))?
     };
     let mut names: Vec<String> = r.list_files().map_err(|e| format!("list: {e:?}"))?.cloned().collect();
     names.sort();
@@ -594,10 +618,12 @@ pub fn read_all(bytes: &[u8], key_indices: &[usize]) -> Result<BTreeMap<String, 
     if bytes.len() % 2 == 1 {
         cur.set_position(bytes.len() as u64);
     }
+    // the reader configuration starts from new() or (lengths 2, 3 modulo 4) from default()
+    let alt = bytes.len() % 4 >= 2;
     if bytes.len() % 3 == 2 {
-        return read_all_from(CapRead { inner: cur, cap: 7 }, key_indices, 5);
+        return read_all_from_route(CapRead { inner: cur, cap: 7 }, key_indices, 5, alt);
     }
-    read_all_from(cur, key_indices, 4096)
+    read_all_from_route(cur, key_indices, 4096, alt)
 }
 
 /// A reader (seekable if the inner one is) that returns at most `cap` bytes per read call.
@@ -714,7 +740,12 @@ pub fn repair_from<R: Read>(src: R, key_indices: &[usize], unauthenticated: bool
 pub fn repair_route<R: Read>(src: R, key_indices: &[usize], unauthenticated: bool, route: usize) -> Result<RepairResult, (String, String)> {
     // the keys are registered before the mode is chosen, or after (every second group of three routes)
     let keys_last = (route / 3) % 2 == 1;
-    let mut rc = if keys_last { ArchiveReaderConfig::new() } else { reader_config(key_indices) };
+    let alt = (route / 6) % 2 == 1;
+    let mut rc = if keys_last {
+        if alt { ArchiveReaderConfig::default() } else { ArchiveReaderConfig::new() }
+    } else {
+        reader_config_route(key_indices, alt)
+    };
     match (unauthenticated, route % 3) {
         (true, 2) => {
             rc.failsafe_return_only_authenticated_data();
@@ -762,6 +793,9 @@ pub fn repair_route<R: Read>(src: R, key_indices: &[usize], unauthenticated: boo
 }
 
 pub fn repair(bytes: &[u8], key_indices: &[usize], unauthenticated: bool) -> Result<RepairResult, (String, String)> {
-    // the configuration route rotates with the input length (deterministic; prefix sweeps cover all three)
-    repair_route(bytes, key_indices, unauthenticated, bytes.len())
+    // the configuration route rotates with the input length (deterministic; prefix sweeps cover all of them);
+    // an archive whose header announces no encryption is repaired without keys for even lengths (the route
+    // of the convenience constructor ArchiveFailSafeReader::new)
+    let keys: &[usize] = if bytes.len() > 7 && bytes[7] & 1 == 0 && bytes.len() % 2 == 0 { &[] } else { key_indices };
+    repair_route(bytes, keys, unauthenticated, bytes.len())
 }
